@@ -75,7 +75,16 @@ def commit_bound(cx):
         if fn_name(s.fn) != "RaftLog::commit_to" or "stmt" not in s.data:
             continue
         v = write_value(cx, s)
-        def bounded(l, v=v):
+        # `committed = max(committed, i)`: where i does not exceed committed nothing changes; elsewhere i is what is written
+        from ..idioms import as_max
+        mx = as_max(v)
+        keeps = None
+        if mx and sum(1 for x in mx if is_f(x, "RaftLog.committed")) == 1:
+            keeps = [x for x in mx if is_f(x, "RaftLog.committed")][0]
+            v = [x for x in mx if not is_f(x, "RaftLog.committed")][0]
+        def bounded(l, v=v, keeps=keeps):
+            if keeps is not None and l[0] == "is" and l[2] is False and l[1][0] == "bin" and l[1][1] == "Lt" and l[1][2] == keeps and l[1][3] == v:
+                return True
             return l[0] == "is" and l[2] is False and l[1][0] == "bin" and l[1][1] == "Lt" and l[1][2][0] == "call" and l[1][2][1].endswith("RaftLog::last_index") and l[1][3] == v
         require(cx, s, cx.site_key(s, "write:committed"), "commit_to(i) writes only if !(last_index() < i)", bounded, kill=False)
 
